@@ -620,7 +620,7 @@ pub fn c15_case(data: &[u8]) -> c15::RandCase {
     let ops = d.vec(1, 80, |d| match d.pick(19) {
         0..=7 => c15::Op::Send { lab: labs[d.pick(10)], mode: d.range(0, 2) as u8 },
         8..=10 => c15::Op::Burst { lab: labs[d.pick(10)], n: if d.pick(3) == 0 { d.range(200, 299) as u16 } else { d.range(2, 7) as u16 } },
-        11..=13 => c15::Op::Fail { lab: labs[d.pick(10)] },
+        11..=13 => c15::Op::Fail { lab: labs[d.pick(10)], long: d.bool() },
         14 => c15::Op::Reset,
         15 => c15::Op::Disable,
         16 => c15::Op::Enable,
